@@ -33,8 +33,10 @@ ASSUMPTIONS = [
     "for a branch <path:p>/ such values are accepted either way",
     "merged-slash admission is demanded for doubled slashes only; runs of >= 3 slashes may also be 404 "
     "(statement and quantifier speak of 'doubled' slashes) - counted as n_long_run_404 in this evidence",
-    "an admission that exists only through a slash redirect / slash laxness / merging for ANOTHER method "
-    "may give 404 or 405",
+    "405 is demanded when a rule admits the path itself for another method (exactly, or a non-strict leaf rule "
+    "asked with a trailing slash); an admission for ANOTHER method that exists only through a slash redirect, "
+    "merging, or a non-strict branch rule asked without its slash may give 404 or 405 (observed: 404)",
+    "a non-strict branch rule asked with ONE extra trailing slash ('/a/' as '/a//') is accepted either way",
     "rules incomparable under the documented order may be resolved by insertion order",
     "outside the domain: several path converters, path converter before a non-final segment, '//' in rule "
     "strings, websocket rules, subdomains / host matching (C04, C12)",
